@@ -1,6 +1,7 @@
 import Driver.Pure
 import Driver.Store
 import Driver.Smtp
+import Driver.Pop3
 open Driver
 
 /-
@@ -12,5 +13,6 @@ def main (args : List String) : IO UInt32 := do
   | [] | ["pure"] => runLoop (fun (_ : Unit) toks => ((), (pureHandler toks).getD "bad-op")) ()
   | ["store"] => runLoop Driver.StoreMode.step Driver.StoreMode.init
   | ["smtp"] => runLoop Driver.SmtpMode.step ()
+  | ["pop3"] => Driver.Pop3.main
   | _ => IO.eprintln s!"unknown mode {args}"; return 2
   return 0
